@@ -274,16 +274,21 @@ fn exec_session(sess: &mut Session, toks: &[&str]) -> Option<String> {
                 q = q.set(str_of_hex(toks[3 + 2 * i]).unwrap(), V::parse(toks[4 + 2 * i]).unwrap().to_msi());
             }
             let (cond, _) = parse_cond(&toks[3 + 2 * k..]).unwrap();
-            if let Some(e) = cond {
-                q = q.with(e.to_msi());
+            // (a top-level AND is handed over in two `with()` calls: the restrictions are AND-ed)
+            match cond {
+                Some(E::Bin("and", a, b)) => q = q.with(a.to_msi()).with(b.to_msi()),
+                Some(e) => q = q.with(e.to_msi()),
+                None => {}
             }
             res_unit(pkg.update_rows(q))
         }
         "delete" => {
             let mut q = msi::Delete::from(str_of_hex(toks[1]).unwrap());
             let (cond, _) = parse_cond(&toks[2..]).unwrap();
-            if let Some(e) = cond {
-                q = q.with(e.to_msi());
+            match cond {
+                Some(E::Bin("and", a, b)) => q = q.with(a.to_msi()).with(b.to_msi()),
+                Some(e) => q = q.with(e.to_msi()),
+                None => {}
             }
             res_unit(pkg.delete_rows(q))
         }
@@ -298,7 +303,15 @@ fn exec_session(sess: &mut Session, toks: &[&str]) -> Option<String> {
             let name = str_of_hex(toks[1]).unwrap();
             let data = bytes_of_hex(toks[2]).unwrap();
             match pkg.write_stream(&name) {
-                Ok(mut w) => res_unit(w.write_all(&data).and_then(|_| w.flush())),
+                Ok(mut w) => {
+                    if data.len() % 2 == 0 && data.len() >= 4 {
+                        // handed over as a header, a body and a trailer in vectored writes, advancing
+                        // by the count each call returns (what `write_all_vectored` does)
+                        res_unit(write_vectored_all(&mut w, &data).and_then(|_| w.flush()))
+                    } else {
+                        res_unit(w.write_all(&data).and_then(|_| w.flush()))
+                    }
+                }
                 Err(e) => format!("err {}", kind_name(&e)),
             }
         }
@@ -604,6 +617,10 @@ pub fn exec_line(sess: &mut Session, line: &str) -> String {
         }
         "@fault_sweep" => crate::faults::sweep(toks[1].parse().unwrap(), toks[2], toks[3]),
         "oracle_only_session" => "ok".to_string(),
+        "@file_edit" => match catch_unwind(AssertUnwindSafe(|| file_edit(toks[1].parse().unwrap()))) {
+            Ok(r) => r,
+            Err(_) => "panic".to_string(),
+        },
         "@ffi_check" => {
             // the C interface on the bytes of the medium as they are now: it must not abort, and
             // must report what the Rust API reports
@@ -1193,4 +1210,101 @@ pub fn exec_file(req: &str, out: &str) {
         writeln!(w, "{}", r).unwrap();
     }
     w.flush().unwrap();
+}
+
+/// write `data` as three slices (2 bytes, the middle, the last byte) with `write_vectored`,
+/// advancing by the returned count until everything has been taken
+pub fn write_vectored_all<W: std::io::Write>(w: &mut W, data: &[u8]) -> std::io::Result<()> {
+    let cuts = [0usize, 2.min(data.len()), data.len().saturating_sub(1).max(2.min(data.len())), data.len()];
+    let mut off = 0usize;
+    let mut spins = 0usize;
+    while off < data.len() {
+        let mut slices: Vec<std::io::IoSlice> = vec![];
+        for k in 0..3 {
+            let (a, b) = (cuts[k].max(off), cuts[k + 1]);
+            if a < b {
+                slices.push(std::io::IoSlice::new(&data[a..b]));
+            }
+        }
+        let n = w.write_vectored(&slices)?;
+        if n == 0 {
+            return Err(std::io::Error::new(std::io::ErrorKind::WriteZero, "write_vectored took nothing"));
+        }
+        off += n;
+        spins += 1;
+        if spins > data.len() + 8 {
+            break;
+        }
+    }
+    Ok(())
+}
+
+/// a package kept in a FILE: created through `Package::create` on a file, edited in a second
+/// session through the free function `msi::open_rw`, read in a third through `msi::open`
+pub fn file_edit(k: usize) -> String {
+    use std::io::Read;
+    let path = std::env::temp_dir().join(format!("msi_verif_file_edit_{}_{}.msi", std::process::id(), k));
+    let t0 = UNIX_EPOCH - Duration::from_secs(14_182_981) + Duration::from_nanos(999_999_500);
+    let t1 = UNIX_EPOCH + Duration::from_secs(1_489_862_796 + k as u64) + Duration::from_nanos(123_456_700);
+    let run = || -> Result<Vec<String>, String> {
+        let step = |w: &str, e: std::io::Error| format!("err:{}:{}", w, crate::session::kind_name(&e));
+        {
+            let file = fs::OpenOptions::new().read(true).write(true).create(true).truncate(true).open(&path).map_err(|e| step("create-file", e))?;
+            let mut p = msi::Package::create([msi::PackageType::Installer, msi::PackageType::Patch, msi::PackageType::Transform][k % 3], file).map_err(|e| step("create", e))?;
+            p.summary_info_mut().set_author("first");
+            if k % 2 == 0 {
+                p.summary_info_mut().set_creation_time(t0);
+            }
+            p.create_table("T", vec![msi::Column::build("K").primary_key().int16(), msi::Column::build("V").nullable().string(0)]).map_err(|e| step("create_table", e))?;
+            p.insert_rows(msi::Insert::into("T").row(vec![msi::Value::Int(1), msi::Value::from("one")])).map_err(|e| step("insert-1", e))?;
+            p.write_stream("bin").and_then(|mut w| w.write_all(&[1, 2, 3]).and_then(|_| w.flush())).map_err(|e| step("write_stream-1", e))?;
+            if k % 2 == 1 {
+                p.flush().map_err(|e| step("flush-1", e))?;
+            }
+        }
+        let longer: Vec<u8> = (0..(5000 + 37 * k)).map(|i| (i % 251) as u8).collect();
+        {
+            let mut p = msi::open_rw(&path).map_err(|e| step("open_rw", e))?;
+            match k % 3 {
+                2 => p.summary_info_mut().clear_creation_time(),
+                _ => p.summary_info_mut().set_creation_time(t1),
+            }
+            p.summary_info_mut().set_author("second");
+            p.insert_rows(msi::Insert::into("T").row(vec![msi::Value::Int(2), msi::Value::from("two")])).map_err(|e| step("insert-2", e))?;
+            p.write_stream("bin").and_then(|mut w| w.write_all(&longer).and_then(|_| w.flush())).map_err(|e| step("write_stream-2", e))?;
+            match (k / 3) % 3 {
+                0 => p.flush().map_err(|e| step("flush-2", e))?,
+                1 => {
+                    let _file = p.into_inner().map_err(|e| step("into_inner-2", e))?;
+                }
+                _ => {}
+            }
+        }
+        let mut bad = vec![];
+        let mut p = msi::open(&path).map_err(|e| step("open", e))?;
+        let want_t = if k % 3 == 2 { None } else { Some(t1) };
+        if p.summary_info().creation_time() != want_t {
+            bad.push(format!("creation-time={:?}", p.summary_info().creation_time()));
+        }
+        if p.summary_info().author() != Some("second") {
+            bad.push(format!("author={:?}", p.summary_info().author()));
+        }
+        let rows: Vec<String> = p.select_rows(msi::Select::table("T")).map_err(|e| step("select", e))?.map(|r| format!("{:?}/{:?}", r[0], r["V"])).collect();
+        if rows != vec!["Int(1)/Str(\"one\")".to_string(), "Int(2)/Str(\"two\")".to_string()] {
+            bad.push(format!("rows={}", rows.join(";")));
+        }
+        let mut got = vec![];
+        p.read_stream("bin").and_then(|mut r| r.read_to_end(&mut got)).map_err(|e| step("read_stream", e))?;
+        if got != longer {
+            bad.push(format!("stream-length={}", got.len()));
+        }
+        Ok(bad)
+    };
+    let out = match run() {
+        Ok(bad) if bad.is_empty() => "ok".to_string(),
+        Ok(bad) => format!("mismatch:{}", bad.join(",").replace(' ', "_")),
+        Err(e) => e,
+    };
+    let _ = fs::remove_file(&path);
+    out
 }
